@@ -25,17 +25,23 @@ def _post(ctx):
 CFG = dict(
     prop="C19", level="proof", harness="c19",
     props_files=["theories/Props/C19.v"], corr_file="theories/Corr/C19.v", corr_module="Corr.C19",
-    groups={"pipe": True, "lib": True, "gi": False, "git": False}, show_fn={"pipe": "model_pipe", "lib": "model_lib", "gi": "model_gi", "git": "model_git"},
+    groups={"pipe": True, "lib": True, "nav": True, "navlib": True, "norm": False, "gi": False, "git": False},
+    show_fn={"pipe": "model_pipe", "lib": "model_lib", "nav": "model_nav", "navlib": "model_navlib", "norm": "model_norm", "gi": "model_gi", "git": "model_git"},
     pre=_pre, post=_post, shard=150,
     design_ref="DESIGN.md 6.19",
     technique="Coq proof (set characterisation of the discovery pipeline over abstract trees; gitignore specification with the "
               "directory-pattern law) + correspondence of the specification with the ignore crate and with git check-ignore, and of the pipeline with the real binary "
-              "and with the library entry point Linter::lint_paths (extension list through every public configuration route)",
+              "and with the library entry point Linter::lint_paths (extension list through every public configuration route); model of helpers::normalize with a soundness "
+              "proof (the normalised path denotes the same location from every working directory) and the pipeline over arguments as written ('..', '.', absolute) from a working directory nested in the tree, "
+              "tied to the binary run from that directory and to Linter::lint_paths called with that working directory",
     level_text="C19_set / C19_once / C19_written are closed Coq theorems for every tree, extension list, pattern list and argument list: "
                "the model of paths_from_path + lint_paths + IgnoreFile::is_ignored + run_fix's write loop lints exactly the files under "
                "the arguments with a configured extension plus explicit files, minus those the gitignore specification ignores, each once, "
                "and fix writes only those. C19_dir_pattern / C19_dir_line are the README law for 'd/' (any preceding lines, no negation line after it), C19_level: nothing re-includes below an ignored directory. The specification is validated against the ignore "
-               "crate and git itself, and the pipeline model against the sqruff binary built from the tree and against Linter::lint_paths called in-process on every run.",
+               "crate and git itself, and the pipeline model against the sqruff binary built from the tree and against Linter::lint_paths called in-process on every run. "
+               "C19_normalize_sound / C19_normalize_normal_form: helpers::normalize keeps the location a written path denotes, for every working directory and every sequence of '.', '..' and names; "
+               "C19_nav_set / C19_nav_once / C19_nav_spelling / C19_nav_total: from any working directory inside the tree and for arguments written with '..', '.' or absolutely, exactly the specified files are linted, each once, "
+               "each under a name that denotes the file found below the argument (the ignore file lies in the working directory).",
     level_note="Trusted: Coq kernel; hand-written model (tie = sampled correspondence); filesystem, walkdir, the ignore/globset crates and "
                "the JSON printer are oracles; gitignore character classes, escapes and non-ASCII names are outside the modelled subset.",
     rule="(git) every fourth of the (gi) ignore files in a scratch repository: Gallina gi_ignored vs `git check-ignore --no-index` per path. (gi) random ignore files (1-5 lines from the README forms: blank, comment, literal, glob *, ?, **, leading/inner/trailing "
@@ -50,8 +56,15 @@ CFG = dict(
          "differing only in case) x the public routes by which the list reaches the configuration {config text, config map to FluffConfig::new, "
          "FluffConfig::with_sql_file_exts, with_sql_file_exts over a configured list, Linter::config_mut on an existing linter}: the files in the "
          "LintingResult of Linter::lint_paths(fix=false) and of a second call with fix=true on the same linter vs the Gallina pipeline fed the list "
-         "as supplied, and directly vs the property text; non-trivial = additionally an upper-case letter in the list",
-    assumptions=["file and directory names are ASCII without glob metacharacters; no symlinks; all paths lie under the working directory",
+         "as supplied, and directly vs the property text; non-trivial = additionally an upper-case letter in the list. "
+         "(nav) random trees with a working directory at depth 1-3 (sometimes with the layout of a top-level directory repeated below it) x arguments written from there: shortest relative path, "
+         "up to the root of the tree and down again ('../../models'), absolute, each with detours ('x/..', '.', '../<same directory>'), './' and trailing slashes, duplicates; .sqruff and .sqruffignore in the working directory; "
+         "with an ignore file the arguments stay below the working directory and explicit files are written plainly; the binary's lint keys (name and the location std::fs::canonicalize gives it) and the files rewritten by fix vs "
+         "the Gallina pipeline over written arguments and directly vs the property text. (navlib) the same cases through Linter::lint_paths with the process's working directory set to that directory (one after the other). "
+         "(norm) 20 random written paths per case: Gallina normalize vs sqruff_lib_core::helpers::normalize. non-trivial (nav) = an argument contains '..', a candidate is ignored or arguments repeat/overlap",
+    assumptions=["file and directory names are ASCII without glob metacharacters; no symlinks; all paths lie under the root of the generated tree (the working directory is that root or, in the nav runs, a directory below it)",
+                 "nav runs: a written path denotes what its components say (monitored against std::fs::canonicalize); with an ignore file the reported names are plain downward paths "
+                 "(the command line's ignorer reads the name as written: see notes/C19.md, candidate defect)",
                  "ignore patterns use only the documented forms plus negation; '**' only as a whole path component",
                  "Gitignore::matched (one path on its own) of the ignore crate is the reference for a single level; the walk over the parents "
                  "is gitignore's: ignored iff some level is decided 'ignore' (the crate's matched_path_or_any_parents differs with negations "
